@@ -707,7 +707,7 @@ class Hist(Scenario):
             self.inconclusive = "could not finish the cherry-pick sequence"
         return "done"
 
-    def op_squash_merge(self):
+    def op_squash_merge(self, continue_session=False):
         rng = self.rng
         base_branch = self.current_branch() or "main"
         br = self.new_branch_name("sq")
@@ -732,6 +732,10 @@ class Hist(Scenario):
         self.ops.append("merge:squash")
         if self.unmerged():
             self.resolve_conflicts()
+        if continue_session and not self.unmerged():
+            # a session whose work is being squashed goes on editing before the squash commit is made
+            self.do_edit(author=rng.choice(self.sessions), kinds=["ins"])
+            self.g("add", "-A")
         self.g("commit", "-q", "--allow-empty", "-m", "squashed")
 
     def ensure_origin(self):
